@@ -268,6 +268,7 @@ theorem Wr_step (op : Op) (h : Wr c) : Wr (step c op) := by
   | setSched l d => exact h
   | tick ms => exact h
   | setSmCallback => exact h
+  | setSendOnConnect on => exact h
   | setFlags f => exact Wr_setFlags h
   | usend it => exact Wr_xmppSend h
   | uraw it => exact Wr_xmppSendRaw h
